@@ -3,6 +3,9 @@
 import json
 SC="stateless model checking of the implementation under a controlled scheduler (iterative preemption/delay bounding)"
 CHECKS = {
+ "C03": dict(engine="vsched", technique="explicit-state enumeration of handshake histories on a virtual clock (every transition a real HandleStream call) + stateless model checking of concurrent presentations",
+   text="every history to a stated depth over boundary clock advances, client skews, replays and altered copies is run on a fresh real server and compared with the at-most-once/timestamp reference; every interleaving within a deviation bound of k concurrent presentations of one request",
+   note="virtual clock injected through the overlay; single-user aes-128 server (salt pool and timestamp rule are cipher independent)"),
  "C14": dict(engine="vsched", technique=SC+" + explicit-state search over API request histories",
    text="all interleavings within a deviation bound of concurrent Collect* calls with Snapshot/SnapshotAndReset on the real collector (conservation of every counter per user across successive snapshots), and every API request history to a stated depth through the real ssm handlers against a reference model",
    note="sequential consistency; finite scenario list and alphabet stated in evidence"),
